@@ -378,7 +378,7 @@ def gamma7(tier, seed):
 def gamma11(tier, seed):
     """multi-instruction templates with adjacent / overlapping candidate occurrences"""
     out = []
-    L = ("NE", "SA", "HX", "EA", "VAL")
+    L = ("AEM", "NE", "SA", "HX", "EA", "VAL")
     pats = [
         ["a", "a"],
         ["a", "b", "a"],
